@@ -46,6 +46,22 @@ fn main() {
         loop {
             std::thread::sleep(std::time::Duration::from_millis(500));
             let now = snap();
+            // C14: all workers parked while a goal is current or requested, or while an open enabled bucket
+            // holds packets, and no scheduler event for 8 s: nobody is left to wake them up
+            {
+                let total = gl.sch_total.load(Ordering::SeqCst);
+                let parked = gl.sch_parked.load(Ordering::SeqCst);
+                let requests = gl.sch_requests.load(Ordering::SeqCst);
+                let current = gl.sch_current.load(Ordering::SeqCst);
+                let idle_ms = (vh::shadow::vm::process_start().elapsed().as_millis() as u64).saturating_sub(gl.sch_last_event_ms.load(Ordering::SeqCst));
+                if total > 0 && parked == total && (requests != 0 || current != 0) && idle_ms > 8000 {
+                    let mut v = Verdict::default();
+                    v.ok = false;
+                    v.violations.push(Violation { property: "C14".into(), step: 0, detail: format!("all {} GC workers have been parked for {} ms with no scheduler event while work is pending (requested goals bitmask {:#b} [bit0 Gc, bit1 Shutdown, bit2 StopForFork], current goal {})", total, idle_ms, requests, if current == 0 { "none".to_string() } else { format!("#{}", current - 1) }), signature: "all-workers-parked-with-pending-goal".into() });
+                    println!("VERDICT {}", serde_json::to_string(&v).unwrap());
+                    std::process::exit(1);
+                }
+            }
             if now != last || now.0 == 0 {
                 last = now;
                 since = std::time::Instant::now();
